@@ -12,6 +12,9 @@ import (
 
 func TestMain(m *testing.M) {
 	code := m.Run()
+	if relaxedKeyless > 0 {
+		Col.AddExtra("comparisons_relaxed_by_open_finding_F14e", relaxedKeyless)
+	}
 	Col.Flush()
 	os.RemoveAll(scratchRoot)
 	os.Exit(code)
